@@ -535,6 +535,37 @@ pub fn mega(sigma: &[char], tier: Tier) -> Vec<String> {
     out
 }
 
+/// a^k b for EVERY k in 1..=max_k and every (a, b) of `pairs`: a buffer of N slots, a page, an
+/// inline capacity - whatever fixed size an implementation introduces, some k sits exactly on it.
+/// Strings are built on the fly (one task per pair and block of lengths).
+pub fn run_all_lengths<F>(pairs: &[(char, char)], max_k: usize, f: F) -> Stats
+where
+    F: Fn(&str, &mut Stats) + Sync,
+{
+    let blocks: Vec<(char, char, usize)> = pairs.iter().flat_map(|&(a, b)| (0..max_k.div_ceil(64)).map(move |i| (a, b, i * 64))).collect();
+    let shards: Vec<Stats> = blocks
+        .par_iter()
+        .map(|&(a, b, lo)| {
+            let mut st = Stats::default();
+            let mut s: String = std::iter::repeat(a).take(lo).collect();
+            for _k in (lo + 1)..=(lo + 64).min(max_k) {
+                s.push(a);
+                s.push(b);
+                st.states += 1;
+                st.transitions += 1;
+                f(&s, &mut st);
+                s.pop();
+            }
+            st
+        })
+        .collect();
+    let mut total = Stats::default();
+    for s in shards {
+        total.merge(s);
+    }
+    total
+}
+
 /// The structural families every string-level check runs on top of its tree and sweep: pumped
 /// runs, ASCII blocks over two fillers and sparse blocks over the check's alphabet - each at
 /// every placement of the tier - plus the long pumped runs (unplaced).
@@ -553,6 +584,10 @@ where
     let mut st = run_family_placed(&placed, &placements(tier), &f);
     st.merge(run_family(&long, &f));
     st.merge(run_family(&huge, &f));
+    // every run length up to a little over a page, for all pairs of the first three symbols
+    let first: Vec<char> = sigma.iter().take(3).copied().collect();
+    let pairs: Vec<(char, char)> = first.iter().flat_map(|a| first.iter().map(move |b| (*a, *b))).collect();
+    st.merge(run_all_lengths(&pairs, tier.pick(4200, 8400), &f));
     st.add("family:placed_strings", placed.len() as u64);
     st.add("family:placements", placements(tier).len() as u64);
     st
